@@ -386,6 +386,8 @@ def site_name(sp):
 def scan_loop_ok(fv, loop, acc_is_field):
     """`for j in 0..buff.len() { if *buff.get(j).unwrap() </<= acc { buff_pos = j; acc = *buff.get(j).unwrap(); } }`
     Returns (ok, why)."""
+    if loop.get("k") != "for":
+        return False, "a `%s` loop inside the iteration is not a buffer scan" % loop.get("k")
     paths = sym_paths(fv, loop["body"])
     view = paths[0].view if paths else fv
     X = j = is_elem = None
